@@ -14,6 +14,14 @@
 (*                  peak number of simultaneous owners; an owner is a      *)
 (*                  thread between the critical section of its get and the *)
 (*                  critical section of its guard's drop (Pool.tla header) *)
+(*  reuse_at_creation                                                      *)
+(*                  at the instant an arena is created (first request to   *)
+(*                  the base allocator for it) no arena returned by a      *)
+(*                  completed guard drop is idle: the number of completed  *)
+(*                  pushes minus the number of gets that entered their     *)
+(*                  critical section with a non-empty idle vector, both    *)
+(*                  read at that instant, is a lower bound of the number   *)
+(*                  of idle arenas and must not be positive                *)
 (*  intact          every block written through any guard reads back       *)
 (*                  unchanged -- when its arena is handed out again, after *)
 (*                  the next allocation and when the owner of the pool     *)
@@ -121,6 +129,9 @@ Step ==
                 pk     == Max(mpeak, Cardinality(owners \cup {t}) + Cardinality(lids))
                 reuse  == ReuseC(Cardinality(ids2 \cup PendIds(p2)), pk)
                 intact == ev.damaged = <<>>
+                \* the arena was created (first request to the base allocator) at an instant at which at least
+                \* pushed - pops arenas, returned by completed guard drops, were idle: they had to be reused first
+                atcre  == ev.created => NoIdleAtCreationC(ev.at_alloc.pushed - ev.at_alloc.pops)
             IN
             /\ own' = [own EXCEPT ![t] = ev.arena]
             /\ ofirst' = [ofirst EXCEPT ![t] = ev.obs.first]
@@ -132,7 +143,7 @@ Step ==
             /\ mpeak' = pk
             /\ UNCHANGED <<expFrees, lids, lch>>
             /\ Report((IF excl THEN {} ELSE {"exclusive"}) \cup (IF reuse THEN {} ELSE {"reuse"})
-                      \cup (IF intact THEN {} ELSE {"intact"}))
+                      \cup (IF intact THEN {} ELSE {"intact"}) \cup (IF atcre THEN {} ELSE {"reuse_at_creation"}))
       [] k = "use" ->
             /\ on' = [on EXCEPT ![t] = ev.obs.n]
             /\ UNCHANGED <<own, ofirst, owners, mpeak, ids, pend, expFrees, lids, lch>>
